@@ -24,6 +24,7 @@ import (
 	"encoding/base64"
 	"encoding/json"
 	"math/big"
+	"sort"
 	"strconv"
 )
 
@@ -116,7 +117,16 @@ func ChangeAssets(source string, targets map[string]types.TransferData, accountd
 	responseCoin := types.NewJSONObject()
 	responseFT := types.NewJSONObject()
 
-	for address, transferData := range targets {
+	// iterate in a fixed order: with the source itself (or one address in two spellings) among
+	// the targets the outcome depends on the order in which the transfers are applied
+	addresses := make([]string, 0, len(targets))
+	for address := range targets {
+		addresses = append(addresses, address)
+	}
+	sort.Strings(addresses)
+
+	for _, address := range addresses {
+		transferData := targets[address]
 		targetAddr := common.HexToAddress(address)
 
 		// 转钱
